@@ -170,6 +170,10 @@ class LDMService:
         current_time = TimestampIts.initialize_with_utc_timestamp_seconds()
         notify_time = subscription.subscription_request.notify_time
         with self._lock:
+            # The attendance walks a copy of the subscription list: a subscription that has been
+            # cancelled since it began (e.g. by a consumer notified earlier in it) is not notified.
+            if subscription not in self.subscriptions:
+                return
             last_checked = self.last_checked_subscriptions_time.get(subscription)
             if last_checked is None:
                 self.last_checked_subscriptions_time[subscription] = current_time
